@@ -87,9 +87,10 @@ namespace Restful.Driver
     property predicate evaluated on the REAL outcome -/
 def routeAnswer (id : String) (cfg : Config) (req : Req) (real : Real) : String :=
   let (o, tag) := routeTagged implEnv cfg req
-  -- well-formed = the hypotheses of the theorems: templates read, and the root of a service without
-  -- routes (about which `wfTemplates` says nothing) reads too
-  let wf := cfg.wfTemplates && (match cfg.router with
+  -- well-formed = the hypotheses of the theorems: templates read, ids identify (`Spec.idsDistinct`: the
+  -- predicates name the route that ran by its ids — `C01/C03/C04_holds_unique`), and the root of a
+  -- service without routes (about which `wfTemplates` says nothing) reads too
+  let wf := cfg.wfTemplates && Spec.idsDistinct cfg && (match cfg.router with
     | .curly => Curly.rootsRead cfg
     | .jsr => Jsr.rootsRead cfg)
   let specs := specLine "WF" wf ++ specLine "C01" (Spec.c01Holds implEnv cfg req real.outcome)
